@@ -191,9 +191,11 @@ Definition apply_live (g : cfg) (live : list lrow) (e : ent_ev) : list lrow :=
   let k := key_of cc (e_vals e) in
   let rest := filter (fun r => negb (same_l (e_cls e) k r)) live in
   if e_kind e =? OP_DEL then rest
-  else if (e_kind e =? OP_UPD) && e_isnew e then
-    (* row switch (delete + add of one key in one flush): SQLAlchemy turns it into an UPDATE that
-       sets only the attributes assigned on the new object; the others keep the old row's values *)
+  else if e_kind e =? OP_UPD then
+    (* an UPDATE statement sets only the attributes whose history has changes; every other column
+       keeps the row's value.  For an up-to-date object that is what the object holds anyway; for a
+       row switch (delete + add of one key in one flush, delivered as one after_update on the new
+       object) and for objects left stale by one, the object and the row differ *)
     match find (same_l (e_cls e) k) live with
     | Some old => rest ++ [mkl (e_cls e) k (merge_vals (e_colchg e) (e_vals e) (l_vals old))]
     | None => rest ++ [mkl (e_cls e) k (e_vals e)]
